@@ -1,5 +1,6 @@
 import SaphyrModel.Parser2
 import SaphyrModel.Proofs.TokTree
+import SaphyrModel.Proofs.AnchorTok
 /-! # C03 — Block and flow structure parses to the denoted tree (parser-level component theorems)
 
 The structural content of C03 at full strength (`parse (render ℓ t) = flatten t` for every layout)
@@ -73,5 +74,40 @@ example :
     let t : TT := .blockSeq sp sp (.cons sp (.flowSeq sp sp (.cons sp (.scalar sp .plain ['a'])
       (.cons sp (.flowMap sp sp (.cons sp sp (.scalar sp .plain ['k']) sp (.scalar sp .plain ['v']) .nil)) .nil))) .nil)
     t.wf = true ∧ t.events.length = 9 ∧ t.toks.length = 13 := by decide
+
+open SaphyrModel.Sc SaphyrModel.C03A SaphyrModel.C05T in
+/-- **Anchors and aliases carry exactly their names (scanner level) — for every name.** On a string input the
+    scanner stands at `&` (`alias = false`) or `*` (`alias = true`), followed by a non-empty name made of anchor
+    characters — anything but blanks, line breaks, NUL, the byte-order mark and the flow indicators `,[]{}`; so
+    `:`, `-`, `#`, quotes, non-ASCII text are all part of the name — and then a character that ends it (or the end
+    of the input). The token returned is an anchor (alias) token with exactly that name; it starts at the
+    indicator and ends right after the name, on the same line. With the parser theorems (`C02.C02_anchors`:
+    an alias resolves to the latest anchor of that name) this is what "anchor links" in C03 rests on. -/
+theorem anchor_token_carries_name (alias : Bool) (ind : Char) (name tl : Str) (hne : name ≠ [])
+    (hn : ∀ c ∈ name, isAnchorChar c = true) (htl : isAnchorChar (tl.headD '\x00') = false)
+    (u : Sc) (hk : u.inp.kind = .str) (hi : u.inp.iter = ind :: (name ++ tl)) :
+    (∃ p, scanAnchor alias u = .panic p) ∨
+    ∃ tok u', scanAnchor alias u = .ok (tok, u') ∧
+      tok.ty = (if alias then TokenType.alias name else TokenType.anchor name) ∧
+      tok.span.start = u.mark ∧ tok.span.stop = u'.mark ∧ u'.inp.iter = tl ∧
+      u'.mark.line = u.mark.line ∧ u'.mark.col = u.mark.col + 1 + name.length ∧
+      u'.mark.index = u.mark.index + 1 + name.length := by
+  rcases anchor_token alias ind name tl hne hn htl u u.mark.line u.mark.col u.indent (u.mark.index + u.inp.iter.length)
+      ⟨hk, hi, rfl, rfl, rfl, by rw [hi]⟩ with h | ⟨tok, u', hok, h1, h2, h3, h4⟩
+  · exact Or.inl h
+  · refine Or.inr ⟨tok, u', hok, h1, h2, h3, h4.iter, h4.line, h4.col, ?_⟩
+    have := h4.off
+    rw [hi] at this
+    simp only [List.length_cons, List.length_append] at this
+    omega
+
+open SaphyrModel.Sc in
+/-- non-vacuity: `&a:b-1 ` gives the anchor `a:b-1`; `*é,` gives the alias `é` -/
+example :
+    (match scanAnchor false { mkSc .str 0 ['&','a',':','b','-','1',' ','x'] with mark := ⟨2, 1, 2⟩ },
+           scanAnchor true { mkSc .str 0 ['*','é',',',' '] with mark := ⟨2, 1, 2⟩ } with
+     | .ok (t1, _), .ok (t2, _) => decide (t1.ty = TokenType.anchor ['a',':','b','-','1']) && decide (t2.ty = TokenType.alias ['é']) &&
+         t1.span.stop.col == 8
+     | _, _ => false) = true := by decide +kernel
 
 end SaphyrModel.C03
